@@ -59,6 +59,7 @@ public:
       << " " << hexd(e->mass_water_bulk_x) << " " << hexd(e->mass_water_surfaces_x) << " " << hexd(e->convergence_tolerance)
       << " " << hexd(e->ineq_tol) << " " << hexd(e->MIN_RELATED_SURFACE) << " " << hexd(sp->Get_thickness())
       << " " << hexd(sp->Get_debye_lengths()) << " " << hexd(sp->Get_DDL_limit()) << " " << hexd(e->patm_x) << "\n";
+    o << "W " << hexd(e->s_h2o->la) << " " << hexd(e->s_eminus->la) << " " << hexd(e->s_hplus->la) << " " << hexd(e->G_TOL) << "\n";
     for (size_t i = 0; i < sp->Get_surface_comps().size(); i++) {
       cxxSurfaceComp& c = sp->Get_surface_comps()[i];
       o << "K " << hex(c.Get_formula()) << " " << hex(c.Get_charge_name()) << " " << hex(c.Get_phase_name()) << " "
@@ -111,7 +112,7 @@ public:
         o << "\n";
       } else if (s->type <= HPLUS) {   // aqueous species incl. H+ (types AQ=0, HPLUS=1)
         o << "A " << hex(s->name) << " " << hexd(s->z) << " " << hexd(s->lm) << " " << hexd(s->moles) << " " << hexd(s->erm_ddl)
-          << " " << hexd(s->la);
+          << " " << hexd(s->la) << " " << hexd(s->lg);
         if (e->dl_type_x != cxxSurface::NO_DL && (size_t)s->number < e->s_diff_layer.size()) {
           std::map<std::string, cxxSpeciesDL>& m = e->s_diff_layer[s->number];
           o << " " << m.size();
@@ -162,6 +163,7 @@ static std::string showVar(const VAR& v) {
 
 int main() {
   std::string line, curdb;
+  bool dirty = false;
   IPhreeqc* ip = 0;
   Run run;
   while (std::getline(std::cin, line)) {
@@ -169,7 +171,9 @@ int main() {
     if (w.empty()) continue;
     if ((w[0] == "list" && w.size() == 2) || (w[0] == "case" && w.size() == 4)) {
       const std::string& db = w[0] == "list" ? w[1] : w[2];
-      if (!ip || db != curdb || w[0] == "list") {
+      // definitions made by an input (SURFACE_SPECIES …) persist in the instance: start every case from the database alone
+      if (!ip || db != curdb || w[0] == "list" || dirty) {
+        dirty = false;
         delete ip; ip = new IPhreeqc(); curdb = db;
         ip->SetOutputFileOn(false); ip->SetErrorFileOn(false); ip->SetLogFileOn(false); ip->SetSelectedOutputFileOn(false);
         ip->SetDumpFileOn(false);
@@ -181,6 +185,7 @@ int main() {
       ip->SetErrorStringOn(true);
       if (getenv("C20_DEBUG")) ip->SetOutputStringOn(true);
       std::string input = hx::unhex(w[3]);
+      if (input.find("_SPECIES") != std::string::npos) dirty = true;
       int nerr = ip->RunString(input.c_str());
       std::string errtxt = nerr ? ip->GetErrorString() : "";
       std::cout << "CASE " << w[1] << " errors=" << nerr << " blocks=" << run.blocks.size() << "\n";
